@@ -2,6 +2,7 @@
 from __future__ import annotations
 
 import copy
+import itertools
 import json
 import multiprocessing as mp
 import os
@@ -310,6 +311,19 @@ def c20_trace(text: str, default: bool, ext_texts: list[str]) -> Optional[dict]:
         except Exception:  # noqa: BLE001
             pass
     nodes = [m for p, m in tree.walk(f)]
+    # different objects of ONE document that print the same text: a wrapper and the only child filling it
+    # (NumberExpr / NumberAddExpr / NumberMulExpr / Number, CostSpec / UnitCost), equal siblings, empty fields
+    by_text: dict[str, list] = {}
+    for m in nodes[:120]:
+        if isinstance(m, Placeholder):
+            continue
+        try:
+            by_text.setdefault(tree.text_of(m), []).append(m)
+        except Exception:  # noqa: BLE001
+            pass
+    for group in by_text.values():
+        for a, b in itertools.combinations(group[:5], 2):
+            eq_event(r, a, b)
     for m in nodes[:40]:
         if isinstance(m, Placeholder):
             continue
